@@ -101,6 +101,25 @@ func programs(repo, home string) []program {
 		return o
 	}
 	ps = append(ps, program{"tiny spec / client only", tiny, clientOnly})
+	// reference cycles of every shape: any memoised or guarded graph walk answers differently
+	// depending on which member of a cycle is asked first (map order, template task order)
+	cycles := []byte(`{"openapi":"3.0.3","info":{"title":"t","version":"1"},"paths":{
+ "/folder":{"post":{"operationId":"folder","requestBody":{"required":true,"content":{"application/json":{"schema":{"$ref":"#/components/schemas/Folder"}}}},"responses":{"200":{"description":"ok","content":{"application/json":{"schema":{"$ref":"#/components/schemas/Owner"}}}}}}},
+ "/abc":{"post":{"operationId":"abc","requestBody":{"required":true,"content":{"application/json":{"schema":{"$ref":"#/components/schemas/B"}}}},"responses":{"200":{"description":"ok","content":{"application/json":{"schema":{"$ref":"#/components/schemas/A"}}}},"default":{"description":"e","content":{"application/json":{"schema":{"$ref":"#/components/schemas/C"}}}}}}},
+ "/sum":{"post":{"operationId":"sum","requestBody":{"required":true,"content":{"application/json":{"schema":{"$ref":"#/components/schemas/Sum"}}}},"responses":{"200":{"description":"ok","content":{"application/json":{"schema":{"$ref":"#/components/schemas/M"}}}}}}},
+ "/list":{"get":{"operationId":"list","responses":{"200":{"description":"ok","content":{"application/json":{"schema":{"type":"array","items":{"$ref":"#/components/schemas/Node"}}}}}}}}},
+"components":{"schemas":{
+ "Folder":{"type":"object","properties":{"owner":{"$ref":"#/components/schemas/Owner"},"name":{"type":"string","minLength":1}}},
+ "Owner":{"type":"object","properties":{"folders":{"type":"array","items":{"$ref":"#/components/schemas/Folder"}}}},
+ "A":{"type":"object","properties":{"b":{"$ref":"#/components/schemas/B"},"c":{"$ref":"#/components/schemas/C"}}},
+ "B":{"type":"object","properties":{"c":{"$ref":"#/components/schemas/C"},"a":{"$ref":"#/components/schemas/A"}}},
+ "C":{"type":"object","properties":{"a":{"$ref":"#/components/schemas/A"},"n":{"type":"integer","minimum":0}}},
+ "Sum":{"oneOf":[{"$ref":"#/components/schemas/Leaf"},{"$ref":"#/components/schemas/Node"}]},
+ "Leaf":{"type":"object","required":["v"],"properties":{"v":{"type":"string","pattern":"^a"}}},
+ "Node":{"type":"object","required":["kids"],"properties":{"kids":{"type":"array","items":{"$ref":"#/components/schemas/Sum"}},"next":{"$ref":"#/components/schemas/Node"},"alt":{"$ref":"#/components/schemas/Sum"}}},
+ "M":{"type":"object","additionalProperties":{"$ref":"#/components/schemas/M2"}},
+ "M2":{"type":"object","properties":{"m":{"$ref":"#/components/schemas/M"},"s":{"type":"string","maxLength":3},"self":{"$ref":"#/components/schemas/M2"}}}}}}`)
+	ps = append(ps, program{"reference cycles / all features", cycles, allFeatures})
 	for _, f := range []string{"_testdata/positive/sample.json", "_testdata/examples/petstore-expanded.yml", "_testdata/positive/allOf.yml", "_testdata/positive/security.json", "_testdata/positive/webhooks.json", "_testdata/positive/http_responses.json", "_testdata/positive/parameters.json", "_testdata/positive/anyOf.json"} {
 		ps = append(ps, program{f + " / all features", read(filepath.Join(repo, f)), allFeatures})
 	}
@@ -955,7 +974,7 @@ func main() {
 		"schedule exploration treats a template task between two hooked operations as one step; the side condition (templates only read the generator state) is checked by the deep hash of the whole *gen.Generator before and after WriteSource in the same run",
 		"every run is an execution of the real generator (traces_validated_against_impl counts them); states = distinct scheduler states + history sequences; transitions = scheduler transitions + environment deviations taken",
 		"the free-running -race pass is sampling and reported separately; goimports' subprocess timeouts under load are retried and counted as environment_flakes")
-	r.Finish("1. map orders: 0 deviations, every single deviation (each dynamic range execution over >= 2 keys x {descending, rotated}; thorough also swap-first-two, last-first and all pairs on two programs) and every global order {descending, rotated, last-first} on 12 programs; ~500 invalid single-fault mutants under 3 global orders (diagnostics). 2. schedules: WriteSource under the controlled scheduler for errgroup limits 2, 3, 24 and preemption bounds 0-2 with state-key pruning (pc, pool contents incl. full backing arrays). 3. deep hash of the generator before/after WriteSource. 4. all sequences of <= 2 generations and a third (thorough: all) of the triples over 6 programs, each in a fresh process, compared with the fresh-process output. distinct non-trivial = deviation run / scheduler state / sequence whose result equalled the reference.")
+	r.Finish("1. map orders: 0 deviations, every single deviation (each dynamic range execution over >= 2 keys x {descending, rotated}; thorough also swap-first-two, last-first and all pairs on two programs) and every global order {descending, rotated, last-first} on 13 programs (incl. one made of reference cycles of every shape); ~500 invalid single-fault mutants under 3 global orders (diagnostics). 2. schedules: WriteSource under the controlled scheduler for errgroup limits 2, 3, 24 and preemption bounds 0-2 with state-key pruning (pc, pool contents incl. full backing arrays). 3. deep hash of the generator before/after WriteSource. 4. all sequences of <= 2 generations and a third (thorough: all) of the triples over 6 programs, each in a fresh process, compared with the fresh-process output. distinct non-trivial = deviation run / scheduler state / sequence whose result equalled the reference.")
 }
 
 // siteOf guesses which construct the two diagnostics disagree about (for finding matchers).
